@@ -342,8 +342,7 @@ type Syncer struct {
 }
 
 func (s *Syncer) resync(p *Peer, reason string) {
-	if p.Synced() {
-		p.setSynced(false)
+	if p.requestResync() {
 		s.log.Debug("resync triggered", zap.String("peer", p.t.Addr), zap.String("reason", reason))
 	}
 }
@@ -827,6 +826,7 @@ func (s *Syncer) syncLoop(ctx context.Context) error {
 		s.mu.Unlock()
 		type resp struct {
 			peer      *Peer
+			resyncs   uint64
 			cs        consensus.State
 			headers   []types.BlockHeader
 			remaining uint64
@@ -839,6 +839,7 @@ func (s *Syncer) syncLoop(ctx context.Context) error {
 		}
 		for _, p := range peers {
 			go func(p *Peer) {
+				resyncs := p.resyncCount()
 				cs, headers, remaining, err := func() (consensus.State, []types.BlockHeader, uint64, error) {
 					for _, id := range hist {
 						if id == (types.BlockID{}) {
@@ -860,7 +861,7 @@ func (s *Syncer) syncLoop(ctx context.Context) error {
 					}
 					return consensus.State{}, nil, 0, errors.New("no common history")
 				}()
-				respChan <- resp{peer: p, cs: cs, headers: headers, remaining: remaining, err: err}
+				respChan <- resp{peer: p, resyncs: resyncs, cs: cs, headers: headers, remaining: remaining, err: err}
 			}(p)
 		}
 		// sync each set of headers as they arrive
@@ -869,7 +870,7 @@ func (s *Syncer) syncLoop(ctx context.Context) error {
 			if r := <-respChan; r.err != nil {
 				r.peer.setErr(r.err)
 			} else if len(r.headers) == 0 {
-				r.peer.setSynced(true)
+				r.peer.markSynced(r.resyncs)
 			} else if id := r.headers[len(r.headers)-1].ID(); seen[id] {
 				continue // already syncing these blocks from another peer
 			} else {
@@ -880,7 +881,7 @@ func (s *Syncer) syncLoop(ctx context.Context) error {
 				} else if r.remaining == 0 {
 					// peer sent all their headers; mark them as synced and
 					// relay their tip
-					r.peer.setSynced(true)
+					r.peer.markSynced(r.resyncs)
 					go s.relayV2Header(r.headers[len(r.headers)-1], r.peer)
 				}
 			}
